@@ -29,15 +29,17 @@ def jobs(tier):
         for ne in range(4):
             for np in range(4):
                 out.append(R(eq, pol, 0, ne, np))
+    # GitLab placement through the real reportToGitLabDiscussion: no IsEqual lemma, every Create forks on the position shape;
+    # (2,2) generic and 3 pending comments exceed an hour per job, so they are not registered
     for pol in (0, 1):
-        for ne, np in [(0, 1), (1, 1), (1, 2), (2, 1), (2, 2), (0, 3)]:
+        for ne, np in [(0, 1), (1, 1), (1, 2), (2, 1), (0, 2)] + ([(2, 2)] if pol == 0 else []):
             out.append(R(1, pol, 1, ne, np))
     for eq, pol in PLATFORMS:
         for evo in (0, 1, 2):
             for ne, np in [(0, 1), (1, 1), (1, 2), (2, 2), (0, 3)]:
                 out.append(E(eq, pol, 0, ne, np, evo))
     for evo in (0, 1, 2):
-        out += [E(1, 0, 1, 1, 1, evo), E(1, 1, 1, 1, 2, evo)]
+        out += [E(1, 0, 1, 1, 1, evo), E(1, 1, 1, 1, 1, evo)]
     return out
 
 def mcjobs(tier):
